@@ -1,5 +1,5 @@
 #!/usr/bin/env python3
-"""seed_import.py <PROP> <k> : confirm /tmp/mut/<PROP>.out/m<k> in the scratch worktree /tmp/mut/<PROP>
+"""seed_import.py <PROP> <k> [base dir] [seed name] : confirm /tmp/mut/<PROP>.out/m<k> in the scratch worktree /tmp/mut/<PROP>
 (demo passes on HEAD, fails with the patch, pinned suite still passes) and, if confirmed, store it as
 /verif/seeded/<PROP>-<k>/ (patch.diff, demo.py, meta.json)."""
 import json, os, shutil, sys
@@ -7,13 +7,15 @@ sys.path.insert(0, os.path.dirname(os.path.abspath(__file__)))
 import seed_eval
 
 prop, k = sys.argv[1], sys.argv[2]
-src = '/tmp/mut/%s.out/m%s' % (prop, k)
-wt = '/tmp/mut/%s' % prop
+base = sys.argv[3] if len(sys.argv) > 3 else '/tmp/mut'
+name = sys.argv[4] if len(sys.argv) > 4 else '%s-%s' % (prop, k)
+src = '%s/%s.out/m%s' % (base, prop, k)
+wt = '%s/%s' % (base, prop)
 res = seed_eval.confirm(src, wt)
 print(json.dumps(res, indent=1))
 if not res.get('ok'):
     sys.exit(1)
-dst = os.path.join(seed_eval.VERIF, 'seeded', '%s-%s' % (prop, k))
+dst = os.path.join(seed_eval.VERIF, 'seeded', name)
 os.makedirs(dst, exist_ok=True)
 shutil.copy(os.path.join(src, 'patch.diff'), dst)
 shutil.copy(os.path.join(src, 'demo.py'), dst)
